@@ -134,6 +134,9 @@ def text(value, encoding=None, errors=None):
         except UnicodeError as e:
             # Python3: multi-arg call supports only string-like object: str, bytes
             text2 = six.text_type(e)
+        except Exception:   # pylint: disable=broad-except
+            # -- ROBUSTNESS: value.__str__() raises an exception itself.
+            text2 = u"<unprintable %s object>" % value.__class__.__name__
         return text2
 
 
